@@ -64,6 +64,39 @@ Theorem C06_repeated_name_is_corrupt : forall rs seen acc,
 Proof. exact walk_spec_dup. Qed.
 Print Assumptions C06_repeated_name_is_corrupt.
 
+(* ---- counter.Read / ReadStack / ReadFile (readFile = Parse of the file mapped
+   AFRESH): what a process reads back is a function of the file's current
+   contents - it does not matter how long the mapping is that the reading
+   process itself holds (another process may have extended the file since).
+   On a well-formed file Read returns the value the independent reader finds
+   under the expanded name, ReadFile the two maps built from its pairs. *)
+Theorem C06_read_faithful : forall bs name, wf_file bs = true ->
+  match spec_decode bs with
+  | Some (_, cs) =>
+      read_counter bs name =
+      match find_last (decode_stack name) cs with Some v => RdVal v | None => RdNotFound end
+  | None => False
+  end.
+Proof. exact read_faithful. Qed.
+Print Assumptions C06_read_faithful.
+
+Theorem C06_read_finds_record : forall bs rs r, wf_file bs = true -> spec_records bs = Some rs -> In r rs ->
+  NoDup (map (fun x => decode_stack (r_name x)) rs) ->
+  read_counter bs (r_name r) = RdVal (r_val r).
+Proof. exact read_finds_record. Qed.
+Print Assumptions C06_read_finds_record.
+
+Theorem C06_read_file_faithful : forall bs, wf_file bs = true ->
+  match spec_decode bs with
+  | Some (_, cs) =>
+      read_file bs =
+      Some (filter (fun kv => negb (is_stack_name (fst kv))) (last_wins cs),
+            map (fun kv => (decode_stack (fst kv), snd kv)) (filter (fun kv => is_stack_name (fst kv)) (last_wins cs)))
+  | None => False
+  end.
+Proof. exact read_file_faithful. Qed.
+Print Assumptions C06_read_file_faithful.
+
 (* ---- a function of the input: for every input the answer does not depend on
    what follows the input in memory (load32 answers 0 unless all four bytes
    are inside the input) *)
